@@ -10,6 +10,7 @@ ap.add_argument('--seeds', default='')
 ap.add_argument('--dir', default=str(V / 'seeded'))
 ap.add_argument('--tier', default='quick')
 ap.add_argument('-v', action='store_true')
+ap.add_argument('--json', default='')
 a = ap.parse_args()
 built = sorted(p.stem.upper() for p in (V / 'sa' / 'rules').glob('c[0-9][0-9].py'))
 props = [p for p in a.props.split(',') if p] or built
@@ -54,4 +55,15 @@ for name, res, err in results:
         for p, (rc, diag) in res.items():
             for l in diag[:3]:
                 print(f'      {p}: {l[:260]}')
+if a.json:
+    import re as _re
+    out = {}
+    for name, res, err in results:
+        if res is None:
+            out[name] = {'error': err}
+            continue
+        out[name] = {'fired': {p: sorted({_re.sub(r'^DIAGNOSTIC: (\S+) .*?\[([^\]]*)\].*$', r'\1 [\2]', l) for l in d if l.startswith('DIAGNOSTIC')})[:6]
+                               for p, (rc, d) in res.items() if rc == 1},
+                     'inconclusive': [p for p, (rc, d) in res.items() if rc == 2]}
+    pathlib.Path(a.json).write_text(json.dumps(out, indent=1))
 print(f'{caught}/{len(results)} seeds make at least one check fire; checks run: {props}')
